@@ -138,7 +138,13 @@ AdvOp(S, t) ==
      ELSE LET k == CHOOSE x \in due : TRUE IN Complete(S1, k, 1, 0, TRUE)      \* TimeoutSkipsInputHooks
 
 ----------------------------------------------------------------------------
-Obs(S) == [ done |-> S.log,                                   \* completion callbacks run in this step: call, error?, reply content
+(* Known finding (C43-unstarted-abort-stalls-queue): requests are queued while the connection is idle and
+   nothing is paused before sending - the state NoRescheduleAfterUnstarted leads to.  The property forbids
+   it (the queued requests never complete); the flag lets the check cut the general corpus just before such
+   a step, the canonical scenario of the finding is run separately. *)
+Stalled(S) == S.pq # <<>> /\ S.busy = 0 /\ \A k \in Calls : S.call[k].cph # "p_co"
+Obs(S) == [ stall |-> IF Stalled(S) THEN 1 ELSE 0,
+            done |-> S.log,                                   \* completion callbacks run in this step: call, error?, reply content
             comp |-> [k \in Calls |-> S.call[k].comp],        \* completions so far, per call
             hinv |-> [k \in Calls |-> S.call[k].hinv],        \* server handler invocations so far, per call
             rawh |-> S.rawh ]                                 \* handler invocations caused by raw requests
